@@ -636,6 +636,9 @@ func initTopicGrp(t *Topic) error {
 		return err
 	} else if stopic == nil {
 		return types.ErrTopicNotFound
+	} else if stopic.State == types.StateDeleted {
+		// The topic is soft-deleted: the record is kept in the database but the topic is gone.
+		return types.ErrTopicNotFound
 	}
 
 	if err = t.loadSubscribers(); err != nil {
